@@ -201,7 +201,8 @@ ChunkDecode(w) == ChunkFrom(w, 1, <<>>, 0)
      pre,post bytes around the string on that line (scenario constants)
      unit     "head": wire is a message head; "body": wire is a part head inside a body
      nfields  number of field lines the scenario has with a harmless string
-     body     bytes expected after the head (scenario constant)               *)
+     body     bytes expected after the head (scenario constant)
+     psize    unit "body": the size the multipart writer declared for wire (-1: none) *)
 EncodedOK(e, mid) ==
     CASE e.enc = "raw"    -> mid = U8EncSeq(e.sup)
       [] e.enc = "pct"    -> PctDecode(mid) = U8EncSeq(e.sup)
@@ -231,6 +232,9 @@ SerClause(e) ==
                    IF e.enc = "unknown" THEN "EncodedFormUnrecognised"
                    ELSE IF ~EncodedOK(e, mid) THEN (IF raw THEN "LineNotAsSupplied" ELSE "EncodedFormNotFaithful")
                    ELSE IF Drop(e.wire, h.body - 1) # e.body THEN "BytesAfterHead"
+                   \* DeclaredEqualsActual for a body made of parts: the size the writer declared before
+                   \* writing (MultipartWriter.size, -1 = none) is the number of bytes it then wrote
+                   ELSE IF e.psize >= 0 /\ e.psize # Len(e.wire) THEN "PayloadSizeMismatch"
                    ELSE ""
 
 (* Refinement table: what today's code does per class of code point.
@@ -458,7 +462,8 @@ MsgClause(m) ==
              IF body # <<>> /\ d.ok /\ d.last /\ d.next > Len(body) /\ entityOK(d.data)
              THEN "ChunkFramingUnderContentLength"       \* named deviation (client chunked=False)
              ELSE IF Len(body) > cl /\ m.ulen >= 0 /\ Take(body, cl) = want
-                  THEN "LengthOverrunAtEof"              \* named deviation (write_eof ignores length)
+                  THEN (IF m.role = "resp" THEN "LengthOverrunAtEof"   \* named deviation (write_eof ignores length)
+                        ELSE "LengthOverrun")                         \* a payload written past the cap it was given
              ELSE IF Len(body) # cl THEN "DeclaredLengthNotActual"
              ELSE "BodyDataMismatch"
     ELSE IF m.role = "req" THEN (IF body # <<>> THEN "UnframedRequestBody" ELSE IF want # <<>> THEN "BodyDataMismatch" ELSE "")
